@@ -14,4 +14,24 @@ structure Gen.Fs where
   /-- `metadata.permissions().readonly()` -/
   readonly : String → Bool
 
+/-- `KmsProtection`: only "is it Plaintext?" is kept (the variant's payload, a key resource name, plays no part in any
+    translated function) -/
+abbrev Gen.KmsProtection := Bool
+
+/-- a YAML scalar as written: its source text. yaml-rust's resolution of a scalar is the model's (`Config.yamlInt`:
+    Integer; `Config.yamlStr`: String — quoted text or a plain word that is no number / bool / null; a float-looking text
+    that is no Integer: Real) -/
+abbrev Gen.Yaml := String
+/-- a YAML document that is a mapping: its (key, value) scalars in file order -/
+abbrev Gen.YamlDoc := List (String × String)
+def Gen.Yaml.asI64 (y : Gen.Yaml) : Option Int := Config.yamlInt y
+def Gen.Yaml.asStr (y : Gen.Yaml) : Option String := Config.yamlStr y
+def Gen.Yaml.isReal (y : Gen.Yaml) : Bool := (Config.yamlInt y).isNone && Config.isFloat y.toList
+
+/-- `std::env::var(name)`: `Ok(value)` if the variable is set (valid Unicode), `Err` otherwise -/
+def Gen.envVar (env : List (String × String)) (name : String) : Res String :=
+  match env.find? (fun kv => kv.1 == name) with
+  | some kv => .ok kv.2
+  | none => .err
+
 end Rough
